@@ -136,6 +136,10 @@ class _StatePointDict(JSONAttrDict):
                 os.replace(job.path, new_workspace)
             except OSError as error:
                 os.replace(tmp_statepoint_file, self.filename)  # rollback
+                # The in-memory data was already modified: restore it from the
+                # (restored) file so that the rejected change is not applied later.
+                with self._suspend_sync:
+                    self._update(self._load_from_resource(), _validate=False)
                 if error.errno in (errno.EEXIST, errno.ENOTEMPTY, errno.EACCES):
                     raise DestinationExistsError(new_id)
                 else:
